@@ -1,6 +1,7 @@
 import FordModel.Proto
 import FordModel.Fs
 import FordModel.FsPages
+import FordModel.FsGlob
 namespace Ford
 open Proto Fs
 
@@ -207,6 +208,26 @@ def dispatchC19 : List Str → Option (List Str)
     else if cmd == "c19.saferel".toList then
       match args with
       | [s] => some ["ok".toList, b01 (safeRel s)]
+      | _ => some ["bad-request".toList]
+    else if cmd == "c19.fnmatch".toList then
+      match args with
+      | [name, pat] => some ["ok".toList, b01 (FsGlob.fnmatch name pat)]
+      | _ => some ["bad-request".toList]
+    else if cmd == "c19.refuses".toList then
+      -- project directory, raw output_dir, raw src_dir entries: the refusal on the settings as written
+      match args with
+      | d :: o :: srcs => some ["ok".toList, b01 (refuses { dir := absPath d, out := o, srcDirs := srcs })]
+      | _ => some ["bad-request".toList]
+    else if cmd == "c19.refusestr".toList then
+      match args with
+      | o :: srcs => some ["ok".toList, b01 (FsGlob.refusesStr o srcs)]
+      | _ => some ["bad-request".toList]
+    else if cmd == "c19.keepsrc".toList then
+      -- variant, output directory, number of user exclude_dir entries, those entries, the files found
+      match args with
+      | v :: o :: n :: rest =>
+        let k := natOf n
+        some ("ok".toList :: FsGlob.keepSources (isOne v) (rest.take k) o (rest.drop k))
       | _ => some ["bad-request".toList]
     else if cmd == "c19.parents".toList then
       match args with
